@@ -86,14 +86,14 @@ CLAIMED = {
    technique='Coq proof (tables + kernels over source-regenerated definitions) + whole-frame correspondence against extracted Coq spec',
    ref='DESIGN.md section 6 C02'),
  'C01': dict(
-   text='PARTIAL proof. Proved and re-checked against source-regenerated definitions every run: the decoder\'s tables (120-entry distance map, code-length order, alphabet sizes) and '
-        'transform kernels (Average2, ClampAddSubtractFull/Half, ColorTransformDelta mod 256, sub-sampled size) equal the lossless specification\'s for all byte inputs and cannot overflow. '
-        'Proved over the Rust-mirroring model (Model/BitReader, Huffman, Lossless; tied by the c01model correspondence through hooks): the bit reader delivers the stream bits LSB first on both refill paths; '
-        'simple prefix codes (0-bit single symbol; two symbols ordered, order of transmission irrelevant, equal symbols collapse); the back-reference copy (16-byte copy_within trick + scalar tail) = overlapping LZ77 copy. '
-        'The remaining structural refinement (two-level prefix tables for normal codes, pixel loop, in-place transforms) is NOT proved: it is decided each run by whole-stream correspondence implementation = '
-        'Spec.VP8L.decode (executable Coq transcription of the specification, validated against libwebp each run) on seeded random legal streams covering every feature the property names.',
+   text='Coq theorem R.frame_matches_spec (FULL up to two stated, decidable format conditions): for every stream the specification (Spec.VP8L, executable transcription validated against libwebp '
+        'each run) decodes, every fill_buf schedule and every prior buffer contents, the Rust-mirroring model of LosslessDecoder::decode_frame returns exactly the specification\'s pixels '
+        '(explicit and implicit dimensions), provided no SIMPLE prefix code names a symbol outside its alphabet (codes_in_format; libwebp drops such a symbol, the crate rejects: necessity machine-checked) '
+        'and predictor blocks use the 14 defined modes (in_format; the crate\'s behaviour outside is characterised exactly). R.frame_sound: whatever the decoder accepts is what the specification defines. '
+        'Proved layer by layer (bit stream, Kraft acceptance, canonical tables, code descriptions, pixel loop with colour cache / copy_within / F2 / F4, entropy images with meta codes, four inverse transforms, '
+        'transform list and header), 30 proof files. Tables and scalar kernels are regenerated from the source every run and proved equal to the specification\'s.',
    note='Trusted: Coq kernel, rs2v translator, Spec/VP8L.v (hand transcription of the specification), hand model Model/{BitReader,Huffman,LosslessTransform,Lossless}.v (correspondence-checked component by component and on whole payloads under fill_buf schedules), extraction, the legal-stream generator of the harness (checked: libwebp accepts every stream).',
-   technique='Coq proof (tables + kernels over source-regenerated definitions) + whole-stream correspondence against extracted Coq spec',
+   technique='Coq proof (refinement of the Rust-mirroring decoder model to the executable specification, all schedules and buffers quantified) + component and whole-stream correspondence',
    ref='DESIGN.md section 6 C01'),
  'C15': dict(
    text='Coq theorem arith_refines_rfc: for every byte string whose first byte is not 0xFF and every sequence of requests (bits with any probability, flags, literals <= 8 bits, optional '
